@@ -327,7 +327,8 @@ def run(res, replay=None):
                 res.oracle_failures.append(("verifharness c17c %s %d %d" % (kind, w, r), v))
     # second family of concurrent workloads (harness/c17d.go): long keys (about three entries per skip-list node: nodes are emptied,
     # unlinked and split all the time) with writers checking their own completed operations, and UpdateEntry under readers
-    plan = [("s", "long", 8, 4000), ("s", "long", 16, 1500), ("s", "upd", 3, 3000), ("b", "upd", 3, 3000)] * (1 if res.tier == "quick" else 8) + ([("s", "long", 16, 300)] if res.tier != "quick" else [])
+    # (a lost insert next to a node removal shows in roughly two of three 8 x 4000 runs: several of them per check)
+    plan = [("s", "long", 8, 4000), ("s", "long", 8, 4000), ("s", "long", 8, 5000), ("s", "long", 6, 5000), ("s", "long", 16, 1500), ("s", "upd", 3, 3000), ("b", "upd", 3, 3000)] * (1 if res.tier == "quick" else 8) + ([("s", "long", 16, 300)] if res.tier != "quick" else [])
     for kind, mode, ng, nops in plan:
         d = tempfile.mkdtemp(prefix="c17d_", dir=os.path.join(BUILD, "tmp"))
         try:
